@@ -184,7 +184,7 @@ def main(tier, replay=None):
         chk.oblige("build:delta-with-hooks", False, out[-2000:])
         return chk.finish()
     vlib.build_native()
-    vlib.standard_proof_obligations(chk, "PropC17")
+    vlib.standard_proof_obligations(chk, "PropC17", gen_names=("blamenumbers",))
     ok, out = vlib.build_vmodel()
     if not ok:
         chk.oblige("build:vmodel", False, out[-2000:])
@@ -201,6 +201,7 @@ def main(tier, replay=None):
     with ThreadPoolExecutor(max_workers=vlib.NCPU) as ex:
         obs = list(ex.map(run_case, cases))
     mism = 0
+    mism_num = n_num = 0
     for case, o in zip(cases, obs):
         keys = ",".join(str(k) for k in case["keys"])
         flags = "".join("1" if f else "0" for f in case["flags"])
@@ -222,6 +223,20 @@ def main(tier, replay=None):
             mism += 1
             if mism <= 3:
                 vlib.log(f"[C17] correspondence mismatch: {case} model={m} impl={o['cols']} rc={o['rc']}")
+        # correspondence of the line-number field with the translated condition (GenBlameNumbers.v)
+        if case.get("numbers") and o["rc"] == 0 and len(o["rows"]) == len(case["keys"]):
+            md = case["numbers"]
+            mname, mn = ("block", 0) if md == "block" else (("every", int(md[6:])) if md.startswith("every-") else ("on", 0))
+            for i_, (k_, row_) in enumerate(zip(case["keys"], o["rows"])):
+                parts_ = row_.split("│", 2)
+                if len(parts_) < 3:
+                    continue
+                n_num += 1
+                rep_ = vm.ask("blame_blank", mname, mn, 1 if (i_ > 0 and case["keys"][i_ - 1] == k_) else 0, i_ + 1)
+                if (rep_ == "1") != (parts_[1].strip() == ""):
+                    mism_num += 1
+                    if mism_num <= 3:
+                        vlib.log(f"[C17] line-number field: mode {md} row {i_} {row_!r}: model blank={rep_}")
         # oracle on the implementation
         if o["rc"] != 0:
             why.append(f"exit status {o['rc']}: {o['stderr']}")
@@ -237,6 +252,7 @@ def main(tier, replay=None):
         if why:
             chk.violation({"property": PID, "case": case, "input": "\n".join(o["lines"]), "why": "; ".join(why[:4]),
                            "impl_colours": o["cols"], "model": m, "rows": o["rows"][:12], "stderr": o["stderr"]})
+    chk.oblige("correspondence:blame-line-number-field", mism_num == 0, f"{mism_num} of {n_num} line-number fields are blank / filled differently from the model")
     chk.oblige("correspondence:blame-colours", mism == 0, f"{mism} of {len(cases)} streams disagree with the model")
     chk.extra["traces_validated_against_impl"] = len(cases) - mism
     chk.assumptions = ["palette colours pairwise distinct (the generated palettes are)",
